@@ -3,6 +3,7 @@ package main
 // Top-level verification of one function against its contract; lemmas; result collection.
 
 import (
+	"os"
 	"fmt"
 	"go/ast"
 	"go/token"
@@ -132,6 +133,7 @@ func (c *Ctx) verifyBody() {
 	for _, fv := range fn.FreeVars {
 		fr.Env[fv] = c.symbolic(st, fv.Type(), fv.Name())
 	}
+	c.entryObjs = c.nobj
 	// eager materialisation of pointer params so that old() sees them
 	for _, p := range fn.Params {
 		if pv, ok := fr.Env[p].(PtrV); ok && pv.Sym != nil {
@@ -167,6 +169,16 @@ func (c *Ctx) atReturn(st *State, ret Value, n int) {
 	fr := st.Frames[0]
 	sp := c.Spec
 	c.curState = st
+	if os.Getenv("GOVC_DEBUG_RET") != "" {
+		nf := 0
+		for _, t := range st.PC {
+			if t.IsFalse() {
+				nf++
+			}
+		}
+		fmt.Printf("atReturn path=%d ret=%s pc=%d false-conjuncts=%d and-folds-false=%v\n", st.PathID, showValue(ret), len(st.PC), nf, And(st.PC...).IsFalse())
+		os.WriteFile(fmt.Sprintf("/tmp/pc-path%d.smt2", st.PathID), []byte(Script(st.PC, nil, "", TS.Defs)), 0o644)
+	}
 	env := c.specEnvFor(st, fr)
 	env.result = ret
 	env.hasResult = true
@@ -192,6 +204,20 @@ func (c *Ctx) atReturn(st *State, ret Value, n int) {
 		lbl := en.Label
 		if lbl == "" {
 			lbl = fmt.Sprint(i + 1)
+		}
+		if os.Getenv("GOVC_DEBUG_RET") != "" {
+			ts := t.String()
+			if len(ts) > 80 {
+				ts = ts[:80]
+			}
+			last := ""
+			if n := len(st.PC); n > 0 {
+				last = st.PC[n-1].String()
+				if len(last) > 120 {
+					last = last[:120]
+				}
+			}
+			fmt.Printf("   ensures#%s = %s   [pc=%d last=%s]\n", lbl, ts, len(st.PC), last)
 		}
 		c.oblige(st, fmt.Sprintf("%s/ensures#%s", base, lbl), "ensures", t, en.Src, c.Fn.Pos())
 		// vacuity guard: the antecedent of a conditional postcondition must be satisfiable on some returning path
